@@ -7,7 +7,10 @@
 // exceeds its limit by more than the overshoot bound (what one 50-instruction cycle can add);
 // in between both are accepted. A crash of the host is never accepted. The leak oracle runs a
 // loop body k and 4k times under small limits: both complete, nothing is left behind and the
-// high-water marks do not grow with the iteration count.
+// high-water marks do not grow with the iteration count; and a body whose first dozen iterations
+// stay within the limits is not stopped at all (its depth does not depend on the iteration count).
+// placement.go holds the bodies which go through the host (trigger statements, builtin imports,
+// template methods) and the placements of bodies (called function, nested loop, blocks).
 //
 // Naming dimension: limits count things, whatever they are called. The limit families are re-run
 // with long function names and long module names (entry module / imported module): the verdicts
@@ -20,6 +23,7 @@ package c09
 
 import (
 	"fmt"
+	"sort"
 	"strings"
 
 	"github.com/smarthome-go/homescript/v3/homescript/runtime"
@@ -43,7 +47,7 @@ func (c09) Info(tier string) fw.Info {
 		Rule: "parametric families rec(d) (call depth), nest(n) (operand nesting: right-nested sums, list literals, call arguments), locals(l,d) (locals per frame x depth) with parameters below/at/just above/far above each limit, x limit triples from {4,16,64,500}^3 on the VM and call limits {4,64,1000} on the interpreter; " +
 			"recursion shapes (mutual, call in argument position, under try, through a function literal; interpreter only: cycles made of capturing function literals reaching themselves through a list / an object / each other / a named function / with a builtin on every level) around each call limit; " +
 			"naming dimension: the limit families (recursion shapes, nest-sum/-args/-list held in a function, locals) with function names of 12/18/40/150 characters and the callables in the entry module main, in an entry module with a 30-character name or in an imported module with a 30/120-character name, just within and far above the limit the family works against, on both back ends (quick: a seed-rotated third of family x naming x limit value); " +
-			"plus iter(k, body) for ~45 loop bodies and for generated bodies {~40 operand contexts: right operands, compound and place assignments, index, list/object literal elements, range end, arguments of named functions, function values, host-provided globals and member functions, try/match/if/loop in operand position} x {continue, break, return, throw} x {shape of the leaving expression} x {kind of loop left} (thorough: complete product, quick: two seed-rotated shape/loop combinations per context x exit), run k and 4k times under small limits (leak oracle: residue 0 and equal high-water marks). Demands are measured with the step hook under huge limits; non-trivial = a limit was actually decisive (demand within overshoot of a limit, or exceeded) or a leak comparison was made; distinct = (program, limits)",
+			"plus iter(k, body) for ~45 loop bodies and for generated bodies {~40 operand contexts: right operands, compound and place assignments, index, list/object literal elements, range end, arguments of named functions, function values, host-provided globals and member functions, try/match/if/loop in operand position} x {continue, break, return, throw} x {shape of the leaving expression} x {kind of loop left} (thorough: complete product, quick: two seed-rotated shape/loop combinations per context x exit), for ~19 bodies which go through the host on every iteration {trigger statements with 0-3 arguments of type int/str/float/bool/list, the connectives at/on/in, computed / call / block arguments; null and value functions, a throwing function, a value and an object method imported from builtin modules; template methods implemented for a singleton; singleton field access} and for placements of the host bodies and the hand-written bodies {in a function called in statement position / as operand / twice as arguments / inside try, in a function literal, in a recursive function, in an inner for / while, in try / catch / if / else / match-arm blocks, in a block in operand position} (thorough: complete product, quick: host bodies x every second placement, hand-written bodies x two seed-rotated placements; VM, and the interpreter where its host offers the import), run k and 4k times under small limits (leak oracle: residue 0 and equal high-water marks; bounded-loop oracle: when 12 iterations of a body stay within the limits, k iterations are not stopped). Demands are measured with the step hook under huge limits; non-trivial = a limit was actually decisive (demand within overshoot of a limit, or exceeded) or a leak comparison was made; distinct = (program, limits)",
 		Assumptions: []string{
 			"overshoot bound = 50 entries: the limits are checked once per 50-instruction cycle",
 			"host memory exhaustion through data growth (huge lists/strings) is not a configured limit and not covered",
@@ -81,6 +85,8 @@ type body struct {
 	loop  string // loop statements executed per iteration; may use `i`
 	tags  []string
 	throw bool
+	// vmOnly: the body uses what only the VM's host offers (placement.go)
+	vmOnly bool
 }
 
 var bodies = []body{
@@ -188,12 +194,13 @@ func familyProgram(p Payload) string {
 		fmt.Fprintf(&sb, "fn main() { println(r(%d)); }\n", p.A)
 		return sb.String()
 	case "iter":
-		for _, b := range bodies {
-			if b.name == p.Body {
-				return iterProgram(b, p.A)
-			}
+		if b, ok := baseBody(p.Body); ok {
+			return iterProgram(b, p.A)
 		}
 		if b, ok := exitBody(p.Body); ok {
+			return iterProgram(b, p.A)
+		}
+		if b, ok := placedBody(p.Body); ok {
 			return iterProgram(b, p.A)
 		}
 	}
@@ -384,8 +391,42 @@ func (c09) Cases(tier string, seed uint64) []fw.Case {
 		add(Payload{Family: "iter", Body: name, A: kx, Lc: 16, Ls: 32, Lm: 64}, "exit-from-expr-context")
 		add(Payload{Family: "iter", Body: name, A: kx / 3, Lc: 8, Ls: 16, Lm: 32, Tree: 32}, "exit-from-expr-context")
 	}
+	// statements which go through the host (trigger registrations, builtin imports, template
+	// methods), directly in the loop
+	for _, b := range hostBodies {
+		add(Payload{Family: "iter", Body: b.name, A: k, Lc: 16, Ls: 32, Lm: 64}, b.tags...)
+		if !b.vmOnly {
+			add(Payload{Family: "iter", Body: b.name, A: k / 10, Lc: 8, Ls: 16, Lm: 32, Tree: 32}, b.tags...)
+		}
+	}
+	// placements: the statements of a body in a repeatedly called function / nested loop / block
+	for _, name := range placedBodyNames(thorough, seed) {
+		b, _ := placedBody(name)
+		add(Payload{Family: "iter", Body: name, A: kx, Lc: 16, Ls: 32, Lm: 64}, b.tags...)
+		if !b.vmOnly {
+			add(Payload{Family: "iter", Body: name, A: kx / 3, Lc: 8, Ls: 16, Lm: 32, Tree: 32}, b.tags...)
+		}
+	}
+	// scheduling only: the supervisor hands out batches in order, and the VM iteration cases are
+	// the expensive ones (four to five runs each); they go first so that the run does not end with
+	// a few workers grinding through batches of them.
+	sort.SliceStable(cases, func(i, j int) bool { return heavy(cases[i]) && !heavy(cases[j]) })
 	return cases
 }
+
+func heavy(c fw.Case) bool {
+	var p Payload
+	fw.Decode(c, &p)
+	return p.Family == "iter" && p.Tree == 0
+}
+
+// probeIterations: iterations which show the demand of an iteration body (the bodies branch on
+// i % 2, i % 3 and i % 4 at most).
+const probeIterations = 12
+
+// probeLimits: generous for a dozen iterations (a core allocates its whole memory when it is
+// created, so the probe does not use the huge limits).
+var probeLimits = runtime.CoreLimits{CallStackMaxSize: 1 << 12, StackMaxSize: 1 << 12, MaxMemorySize: 1 << 12}
 
 var huge = runtime.CoreLimits{CallStackMaxSize: 1 << 20, StackMaxSize: 1 << 20, MaxMemorySize: 1 << 20}
 
@@ -397,7 +438,7 @@ func (c09) Run(c fw.Case) fw.Result {
 	if p.named() {
 		res.Cover = append(res.Cover, fmt.Sprintf("naming:%s:name=%d,module=%s%d", p.Family, p.NameLen, p.Mod, p.ModLen))
 	}
-	ao := drive.Analyze(src, entry, true)
+	ao := analyze(src, entry)
 	if ao.Errors > 0 {
 		res.Verdict, res.Sig, res.Why = fw.Violated, "harness:program-rejected", "family program rejected: "+ao.ErrorSummary()+"\n"+renderSources(src, entry)
 		return res
@@ -457,11 +498,25 @@ func (c09) Run(c fw.Case) fw.Result {
 		}
 	}
 	if p.Family == "iter" {
+		// bounded depth: the depth of a body does not depend on the iteration count, so what a
+		// few iterations need is what any number of iterations may need. If that is within the
+		// limits the loop must not be stopped, however long it runs.
+		p0 := p
+		p0.A = probeIterations
+		src0, _ := familySources(p0)
+		if prog0, err := drive.Compile(analyze(src0, entry).Modules, entry); err == nil && p.A > probeIterations {
+			ref0 := drive.RunCompiled(prog0, src0, drive.VMOpts{Limits: probeLimits, StepBudget: 200_000_000}, nil)
+			within0 := ref0.Outcome.Class == "ok" && ref0.MaxFrames <= int(p.Lc) && ref0.MaxStack <= int(p.Ls) && ref0.MaxMP < int64(p.Lm)
+			if within0 && o.Class != "ok" {
+				fail("bounded-loop-stopped:"+o.Class+"/"+o.Kind, fmt.Sprintf("%d iterations of the body need F=%d S=%d M=%d, within limits %+v, and the body's depth does not depend on the iteration count; %d iterations ended with %s (under huge limits they reach F=%d S=%d M=%d): frames, stack or memory are not returned from one iteration to the next",
+					probeIterations, ref0.MaxFrames, ref0.MaxStack, ref0.MaxMP, lim, p.A, o, F, S, M))
+			}
+		}
 		// leak oracle: 4k iterations under the same small limits
 		p4 := p
 		p4.A = p.A * 4
 		src4, _ := familySources(p4)
-		ao4 := drive.Analyze(src4, entry, true)
+		ao4 := analyze(src4, entry)
 		prog4, _ := drive.Compile(ao4.Modules, entry)
 		run4 := drive.RunCompiled(prog4, src4, drive.VMOpts{Limits: lim, StepBudget: 800_000_000}, nil)
 		res.Cover = append(res.Cover, bodyCover("body:", p.Body)...)
@@ -539,6 +594,11 @@ func bodyCover(prefix, name string) []string {
 	if strings.HasPrefix(name, "x:") {
 		if f := strings.Split(name[2:], "/"); len(f) == 4 {
 			return []string{prefix + "x:ctx:" + f[0], prefix + "x:exit:" + f[1] + "/" + f[2] + "/" + f[3]}
+		}
+	}
+	if strings.HasPrefix(name, "p:") {
+		if at := strings.Index(name, "/"); at > 0 {
+			return []string{prefix + "p:placement:" + name[2:at], prefix + "p:body:" + name[at+1:]}
 		}
 	}
 	return []string{prefix + name}
